@@ -27,6 +27,7 @@ from .base import (
     BaseGarbageCollector,
     NostrQuery,
     ValidationError,
+    event_from_json,
 )
 from ..config import Config
 from ..errors import StorageError
@@ -678,10 +679,10 @@ class LMDBStorage(BaseStorage):
         Return (event, status)
         """
         try:
-            event = Event(**event_json)
-        except Exception:
+            event = event_from_json(event_json)
+        except StorageError:
             self.log.error("bad json")
-            raise StorageError("invalid: Bad JSON")
+            raise
 
         await self.validate_event(event, Config)
 
